@@ -41,6 +41,32 @@ Fixpoint glob_loop_vis (fuel : nat) (i : nat) (pat body : bytes) (not : bool) (d
     end
   end.
 
+(* the same loop, additionally returning HOW it ended: 0 = the scan ran off the end of the buffer (the normal end),
+   1 = a command list failed (`if (ex_exec(s)) break;`), 2 = out of fuel *)
+Fixpoint glob_loop_x (fuel : nat) (i : nat) (pat body : bytes) (not : bool) (dep : N) (s : st) (vis : list (nat * bool))
+  : st * list (nat * bool) * N :=
+  match fuel with
+  | O => (flag s F_OOF, vis, 2%N)
+  | S f =>
+    match nth_error (lns (lb s)) i with
+    | None => (s, vis, 0%N)
+    | Some x =>
+      let hit := match rfind pat (ltxt x) false with Some _ => true | None => false end in
+      let run := Bool.eqb (negb hit) not in
+      let '(s1, r) := if run then exec body (set_xrow s (Z.of_nat i)) else (s, 0) in
+      if run && negb (r =? 0) then (s1, vis ++ [(lid x, run)], 1%N)
+      else
+        let i1 := if run then Z.to_nat (Z.min (Z.of_nat i) (xrow s1)) else i in
+        let '(j, l) := glob_scan i1 dep (lb s1) in
+        glob_loop_x f j pat body not dep (set_lb s1 l) (vis ++ [(lid x, run)])
+    end
+  end.
+
+(* an executor never drops the mark of the identities satisfying `keeps` (in the model a mark is dropped only by
+   lbuf_replace removing its line: GlobTrack.replace_mids_sub / mknew) *)
+Definition keeps_exec (dep : N) (keeps : nat -> Prop) : Prop := forall body s s' r m,
+  exec body s = (s', r) -> keeps m -> In m (mids dep (lns (lb s))) -> In m (mids dep (lns (lb s'))).
+
 (* what lbuf_replace guarantees of any command list (marks only travel with surviving lines, new lines are
    born unmarked) and tracks_low: no still-marked line ends up above min(i, xrow') *)
 Definition good_exec (dep : N) : Prop := forall body s s' r,
@@ -49,3 +75,22 @@ Definition good_exec (dep : N) : Prop := forall body s s' r,
   sub (mids dep (lns (lb s'))) (mids dep (lns (lb s))) /\
   clean_below dep (Z.to_nat (Z.min (xrow s) (xrow s'))) (lns (lb s')).
 End G.
+
+(* ------------------------------------------------------------------------------------------ *)
+(* the re-allocation branch of lbuf_replace for ln_glob, at the level of the C array (the list model above has no
+   capacity):  while (ln_n + n_ins - n_del >= ln_sz) { nsz = ln_sz + (ln_sz ? ln_sz : 512); nln_glob = malloc(nsz);
+   memcpy(nln_glob, ln_glob, ln_n); ... }.  arr = the whole array (length = capacity ln_sz), n = ln_n entries in use,
+   need = ln_n + n_ins - n_del; junk = what malloc happens to return *)
+Section Grow.
+Variable junk : nat -> N.
+Fixpoint mkjunk (k from : nat) : list N :=
+  match k with O => [] | S k' => junk from :: mkjunk k' (S from) end.
+Fixpoint glob_grow (fuel : nat) (arr : list N) (n need : nat) : list N :=
+  match fuel with
+  | O => arr
+  | S f =>
+    if (need <? length arr)%nat then arr
+    else let nsz := (length arr + (if (length arr =? 0)%nat then 512 else length arr))%nat in
+         glob_grow f (firstn n arr ++ mkjunk (nsz - n) n) n need
+  end.
+End Grow.
